@@ -16,7 +16,7 @@
    and the HC compressors (direct oracle only). *)
 From Coq Require Import ZArith List Lia Bool.
 From LZ4V Require Import Gen.Consts Spec.BlockSpec Model.Mem Model.Fast Model.FastApi
-     Proofs.FastCap Proofs.FastApiCap.
+     Model.HcEmit Proofs.FastCap Proofs.FastApiCap Proofs.HcEmitProofs.
 Import ListNotations.
 Local Open Scope Z_scope.
 
@@ -51,6 +51,27 @@ Theorem C09_fast_extState_fastReset :
      (0 <= cap < compressBound srcSize -> a_ret a = 0 \/ (0 < a_ret a /\ a_ret a <= a_hw a <= cap))).
 Proof. exact compress_fast_extState_fastReset_cap. Qed.
 Print Assumptions C09_fast_extState_fastReset.
+
+(* HC: the one function through which all three HC parsers write a sequence (LZ4HC_encodeSequence).
+   In the limited modes it never writes beyond oend, whatever it is asked to encode ... *)
+Theorem C09_hc_emitter_cap :
+  forall (src : Z -> Z) ip anchor op matchLength offset oend,
+    anchor <= ip -> MINMATCH <= matchLength -> op <= oend ->
+    let e := encodeSequence src ip anchor op matchLength offset true oend in
+    e_hw e <= oend /\ op <= e_op e <= e_hw e.
+Proof. exact encodeSequence_cap. Qed.
+Print Assumptions C09_hc_emitter_cap.
+
+(* ... and when it succeeds the bytes are exactly the specification's encoding of the sequence. *)
+Theorem C09_hc_emitter_encoding :
+  forall (src : Z -> Z) ip anchor op matchLength offset limit oend,
+    anchor <= ip -> MINMATCH <= matchLength -> 0 <= offset < 65536 ->
+    let e := encodeSequence src ip anchor op matchLength offset limit oend in
+    e_ret e = 0 ->
+    e_bytes e = encode_seq (mkSeq (src_bytes src (Z.to_nat (ip - anchor)) anchor) offset matchLength) /\
+    e_op e = op + Z.of_nat (length (e_bytes e)).
+Proof. exact encodeSequence_encoding. Qed.
+Print Assumptions C09_hc_emitter_encoding.
 
 Definition C09_hc_full_statement : Prop :=
   forall (compress_HC : mem -> Z -> Z -> Z -> Z * Z (* ret, high-water *)) (src : mem) srcSize cap level,
